@@ -114,13 +114,20 @@ Section View.
         rewrite (IH Ho'). now rewrite <- app_assoc.
     Qed.
 
-    (** and stops at the first that is *)
+    Lemma flags_not_dashed fs us tl : Flags fs us -> dashed tl = false -> dashed (fs ++ tl) = false.
+    Proof.
+      intros [|c o fs' us' Hl Hb Hf] Ht; [exact Ht|]. cbn [List.app dashed]. now apply letter_not_dash with o.
+    Qed.
+
+    (** and stops at the first that is (D7: what is left does not start with '-', its letters being
+        declared ones) *)
     Lemma loop_found f1 u1 c : Flags f1 u1 -> others u1 ->
       oi_lookup D [c_dash; c] = Some one -> oi_isbool D one = true -> forall pre suf after,
+      dashed (pre ++ f1 ++ suf) = false ->
       short_loop D one pre (f1 ++ c :: suf) after = Matched s_true (residue (pre ++ f1 ++ suf) after).
     Proof.
-      intros Hf Ho Hl Hb pre suf after. rewrite (loop_others f1 u1 Hf Ho). cbn [short_loop].
-      rewrite Hl, Hb, Nat.eqb_refl. cbn [negb]. now rewrite <- app_assoc.
+      intros Hf Ho Hl Hb pre suf after Hd. rewrite (loop_others f1 u1 Hf Ho). cbn [short_loop].
+      rewrite Hl, Hb, Nat.eqb_refl. cbn [negb]. rewrite <- app_assoc. now rewrite Hd.
     Qed.
 
     (** a token "-" ++ letters goes through the loop unless its third character is '=' *)
@@ -236,8 +243,9 @@ Section View.
           * destruct IH as (a' & Hs & Hr'). exists ((c_dash :: n :: l) :: a'). split; [exact Hs|]. apply RFoldEnd; [discriminate | assumption | assumption].
           * exact IH.
         + rewrite E1. rewrite <- app_assoc. rewrite (take_others u1 H2). cbn [List.app take]. rewrite Nat.eqb_refl.
-          rewrite (loop_found f1 u1 c H1 H2 H4 H5 [] f2 rest). cbn [List.app].
-          exists (residue (f1 ++ f2) rest). split; [reflexivity|].
+          rewrite (loop_found f1 u1 c H1 H2 H4 H5 [] f2 rest)
+            by (cbn [List.app]; apply (flags_not_dashed f1 u1 _ H1); rewrite <- (app_nil_r f2); now apply (flags_not_dashed f2 u2)).
+          cbn [List.app]. exists (residue (f1 ++ f2) rest). split; [reflexivity|].
           rewrite app_assoc. apply reads_residue_end; [now apply flags_app | assumption].
       - (* -abxVALUE *)
         cbn [scan].
@@ -262,7 +270,9 @@ Section View.
             -- destruct IH as (a' & Hs & Hr'). exists ((c_dash :: fs ++ x :: v) :: a'). split; [exact Hs|]. now apply RFoldAtt.
             -- exact IH.
         + rewrite E1. rewrite <- !app_assoc. rewrite (take_others u1 H2). cbn [List.app take]. rewrite Nat.eqb_refl.
-          rewrite (loop_found f1 u1 c H1 H2 H4 H5 [] (f2 ++ x :: v) rest). cbn [List.app].
+          rewrite (loop_found f1 u1 c H1 H2 H4 H5 [] (f2 ++ x :: v) rest)
+            by (cbn [List.app]; apply (flags_not_dashed f1 u1 _ H1); apply (flags_not_dashed f2 u2 _ H3); exact Hxd).
+          cbn [List.app].
           exists (residue (f1 ++ f2 ++ x :: v) rest). split; [reflexivity|].
           rewrite residue_cons by (destruct f1; [destruct f2|]; discriminate).
           rewrite (app_assoc f1 f2), (app_assoc u1 u2). apply RFoldAtt; auto. now apply flags_app.
@@ -290,7 +300,9 @@ Section View.
                apply RFoldSep; auto.
             -- exact IH.
         + rewrite E1. rewrite <- !app_assoc. rewrite (take_others u1 H2). cbn [List.app take]. rewrite Nat.eqb_refl.
-          rewrite (loop_found f1 u1 c H1 H2 H4 H5 [] (f2 ++ [x]) (v :: rest)). cbn [List.app].
+          rewrite (loop_found f1 u1 c H1 H2 H4 H5 [] (f2 ++ [x]) (v :: rest))
+            by (cbn [List.app]; apply (flags_not_dashed f1 u1 _ H1); apply (flags_not_dashed f2 u2 _ H3); exact Hxd).
+          cbn [List.app].
           exists (residue (f1 ++ f2 ++ [x]) (v :: rest)). split; [reflexivity|].
           rewrite residue_cons by (destruct f1; [destruct f2|]; discriminate).
           rewrite (app_assoc f1 f2), (app_assoc u1 u2). apply RFoldSep; auto. now apply flags_app.
@@ -553,7 +565,7 @@ Section View.
         destruct r1.
         + unfold m_group, try_. destruct a1, a2; exact I.
         + assert (HO : RO a1 a2) by (exists u1, u2; auto).
-          pose proof (m_group_rel D RO RO_nil RO_opt js a1 a2 HO) as X.
+          pose proof (m_group_rel D RO (fun x y H => or_introl (RO_nil x y H)) RO_opt js a1 a2 HO) as X.
           destruct (m_group D js a1 false) as [[[m1 o1] b1]|] eqn:E1, (m_group D js a2 false) as [[[m2 o2] b2]|] eqn:E2;
             try contradiction; [|exact I].
           destruct (m_group_progress _ _ _ _ _ _ _ E1) as [-> _]. destruct (m_group_progress _ _ _ _ _ _ _ E2) as [-> _].
@@ -575,7 +587,7 @@ Section View.
       intros Hwf Hnd Hs H1 H2 HS.
       apply (bisim_same_result D g RV (fun l => l <> LDD) Hwf).
       - intros s l t Hin ->. exact (Hnd s t Hin).
-      - exact RV_strip.
+      - intros b1 q1 b2 q2 H. destruct (RV_strip _ _ _ _ H) as (A & _ & C). split; assumption.
       - intros l b1 r1 b2 r2 Hl. now apply RV_step.
       - exact Hs.
       - split; [reflexivity|]. exists u1, u2. cbn. auto.
